@@ -22,7 +22,7 @@ os.makedirs(dst, exist_ok=True)
 diff = subprocess.run('git -C %s diff HEAD' % wt, shell=True, capture_output=True).stdout
 open(os.path.join(dst, 'patch.diff'), 'wb').write(diff)
 for f in ('demo.py', 'notes.md'):
-    if os.path.exists(os.path.join(src, f)):
+    if os.path.exists(os.path.join(src, f)) and os.path.abspath(src) != os.path.abspath(dst):
         shutil.copy(os.path.join(src, f), os.path.join(dst, f))
 env = dict(os.environ, PYTHONPATH=wt)
 demo = os.path.join(dst, 'demo.py')
